@@ -258,6 +258,11 @@ def interpretCrop : Item → Except Err (Option Int × Option Int)
   | .slice a b c => if c.isSome then .error .index else .ok (a, b)
   | .int i => .ok (some i, some (i + 1))
 
+/-- A missing item of the tuple is `slice(None)`. -/
+def cropOf : Option Item → Except Err (Option Int × Option Int)
+  | some it => interpretCrop it
+  | none => .ok (none, none)
+
 def Stack.frameItem (s : Stack) : Item → Except Err Stack
   | .slice a b c => s.sliceFrames a b c
   | .int i => s.index i
@@ -269,12 +274,8 @@ def Stack.getitemTuple (s : Stack) (items : List Item) : Except Err Stack :=
   | f :: rest =>
     if rest.length > 2 then .error .index
     else do
-      let rows ← match rest[0]? with
-        | some it => interpretCrop it
-        | none => pure (none, none)
-      let cols ← match rest[1]? with
-        | some it => interpretCrop it
-        | none => pure (none, none)
+      let rows ← cropOf rest[0]?
+      let cols ← cropOf rest[1]?
       let r ← s.roi.crop cols.1 cols.2 rows.1 rows.2
       let t ← s.frameItem f
       pure { t with roi := r }
